@@ -159,46 +159,13 @@ theorem Lookup.fromContiguous_ok {B P : Nat} {m : Contiguous} (h : ValidCdf B P 
 
 /-! ### the loops that push one block per symbol -/
 
-/-- rows `i, i+1, …` of the canonical non-contiguous cdf -/
-def cdfRows {Sym : Type} (lab : Nat → Sym) (ext : List Nat) (i m : Nat) : List (Nat × Sym) :=
-  (List.range' i m).map (fun j => (ext.getD j 0, lab j))
-
-theorem cdfRows_succ {Sym : Type} (lab : Nat → Sym) (ext : List Nat) (i m : Nat) :
-    cdfRows lab ext i (m + 1) = (ext.getD i 0, lab i) :: cdfRows lab ext (i + 1) m := by
-  simp [cdfRows, List.range'_succ]
-
-theorem cdfRows_all {Sym : Type} (lab : Nat → Sym) (ext : List Nat) :
-    cdfRows lab ext 0 (ext.length - 1) = ext.dropLast.zip (labelsOf lab (ext.length - 1)) := by
-  apply List.ext_getElem?
-  intro i
-  by_cases hi : i < ext.length - 1
-  · have h1 : ext.dropLast[i]? = some (ext.getD i 0) := by
-      rw [List.getElem?_dropLast, if_pos hi, getElem?_of_lt (d := 0) (by omega)]
-    have h2 : (labelsOf lab (ext.length - 1))[i]? = some (lab i) := by
-      simp [labelsOf, hi]
-    rw [List.getElem?_zip_eq_some (z := (ext.getD i 0, lab i)) |>.mpr ⟨h1, h2⟩]
-    simp [cdfRows, hi]
-  · rw [List.getElem?_eq_none (by simp [cdfRows]; omega),
-      List.getElem?_eq_none (by simp [labelsOf]; omega)]
-
-theorem specTable_drop {Sym : Type} (lab : Nat → Sym) (ext : List Nat) {i : Nat}
-    (hi : i < ext.length - 1) :
-    (specTable lab ext).drop i =
-      (lab i, ext.getD i 0, ext.getD (i + 1) 0 - ext.getD i 0) :: (specTable lab ext).drop (i + 1) := by
-  have hlt : i < (specTable lab ext).length := by rw [specTable_length]; exact hi
-  rw [List.drop_eq_getElem_cons hlt]
-  congr 1
-  have := specTable_getElem? lab ext hi
-  rw [List.getElem?_eq_getElem hlt] at this
-  exact Option.some.inj this
-
 /-- `NonContiguousLookupDecoderModel::from_symbol_table` on the specification's table: the
     `debug_assert_eq!` holds, every block is written where it belongs -/
 theorem fromTableLoop_inv {Sym : Type} {B P : Nat} {ext : List Nat} (h : ValidExt P ext)
-    (hP : P ≤ B) (lab : Nat → Sym) :
+    (hP : P ≤ B) (lab : Nat → Sym) (dbg : Bool) :
     ∀ (m i : Nat) (cdf : List (Nat × Sym)) (tbl : Array Nat), i + m + 1 = ext.length →
       cdf.length = i → LookupInv ext i tbl →
-      ∃ tbl', NcLookup.fromTableLoop B ((specTable lab ext).drop i) cdf tbl =
+      ∃ tbl', NcLookup.fromTableLoop B dbg ((specTable lab ext).drop i) cdf tbl =
           .ok (cdf ++ cdfRows lab ext i m, tbl') ∧ LookupInv ext (ext.length - 1) tbl' := by
   have hbins := h.bins_le
   have hPB := pow_le_pow_of_le hP
@@ -391,18 +358,19 @@ theorem NcLookup.fromFixed_some {Sym : Type} [Inhabited Sym] {B P : Nat} {syms :
 
 /-- **`to_generic_lookup_decoder_model` / `to_lookup_decoder_model`** on the specification's
     table: never panics (the `debug_assert` holds), canonical cdf, correct lookup table -/
-theorem NcLookup.fromTable_specTable {Sym : Type} {B P : Nat} (lab : Nat → Sym) {ext : List Nat}
-    (h : ValidExt P ext) (hP : P ≤ B) :
-    ∃ tbl last, NcLookup.fromTable B P (specTable lab ext) =
+theorem NcLookup.fromTableWith_specTable {Sym : Type} {B P : Nat} (lab : Nat → Sym) {ext : List Nat}
+    (h : ValidExt P ext) (hP : P ≤ B) (dbg : Bool) :
+    ∃ tbl last, NcLookup.fromTableWith B P dbg (specTable lab ext) =
       .ok { tbl := tbl, cdf := ncCdf B P (labelsOf lab (ext.length - 1)) ext last } ∧
       LookupOK P ext tbl := by
   have h3 := h.1
-  unfold NcLookup.fromTable
-  obtain ⟨tbl', f1, f2⟩ := fromTableLoop_inv h hP lab (ext.length - 1) 0 [] #[] (by omega) rfl
+  unfold NcLookup.fromTableWith
+  obtain ⟨tbl', f1, f2⟩ := fromTableLoop_inv h hP lab dbg (ext.length - 1) 0 [] #[] (by omega) rfl
     (LookupInv.zero h)
   simp only [List.drop_zero, List.nil_append] at f1
   rw [f1, cdfRows_all]
   simp only
+  have hok := LookupInv.final h f2
   cases hl : (ext.dropLast.zip (labelsOf lab (ext.length - 1))).getLast? with
   | none =>
     exfalso
@@ -412,7 +380,16 @@ theorem NcLookup.fromTable_specTable {Sym : Type} {B P : Nat} (lab : Nat → Sym
     omega
   | some x =>
     obtain ⟨c, last⟩ := x
-    exact ⟨tbl', last, by simp only [ncCdf], LookupInv.final h f2⟩
+    refine ⟨tbl', last, ?_, hok⟩
+    simp only [ncCdf]
+    rw [if_neg (by rw [hok.1]; simp)]
+
+theorem NcLookup.fromTable_specTable {Sym : Type} {B P : Nat} (lab : Nat → Sym) {ext : List Nat}
+    (h : ValidExt P ext) (hP : P ≤ B) :
+    ∃ tbl last, NcLookup.fromTable B P (specTable lab ext) =
+      .ok { tbl := tbl, cdf := ncCdf B P (labelsOf lab (ext.length - 1)) ext last } ∧
+      LookupOK P ext tbl :=
+  NcLookup.fromTableWith_specTable lab h hP true
 
 theorem NcLookup.dec_canon {Sym : Type} [DecidableEq Sym] [Inhabited Sym] {B P : Nat}
     {labels : List Sym} {ext : List Nat} {last : Sym} {tbl : Array Nat}
